@@ -28,7 +28,7 @@ trap 'rm -rf "$S"' EXIT
   INST=$CACHE/instrument-$IKEY
   if [ ! -x "$INST" ]; then (cd $VERIF/instrument && go build -o "$INST" .); fi
   $VERIF/build_copy.sh $REPO $S/repo
-  (cd $S/repo && "$INST" $S/repo)
+  (ulimit -v 12000000; cd $S/repo && "$INST" $S/repo)   # an instrumenter gone wrong must not eat the machine
   $VERIF/third_party/patch_bbolt.sh $S/bbolt
   cp $VERIF/sim/go.mod $S/go.mod
   sed -i '/^replace /d' $S/go.mod
